@@ -153,6 +153,6 @@ def compress(data, wb, rng, tokens=None, **_):
              'random': lambda i: bytes(rng.randrange(255) for _ in range(rng.randint(0, 6)))}[style]
     fl = rng.choice([None, lambda L, H: rng.randint(L, H)])
     blocks, st = encode(tokens, wb, trail, fl)
-    st.update(qtm_window=wb, trailing=style, flush='low' if fl is None else 'random', blocks=len(blocks),
+    st.update(qtm_window=wb, trailing=style, flush='low' if fl is None else 'random',
               wraps=wrap_matches(tokens, wb) if wb < 15 else [])
     return blocks, st
